@@ -39,8 +39,15 @@ def _setup(ctx, at="any"):
     if at == "zero": w = 0.0
     elif at == "pi": w = math.pi
     elif at == "half": w = math.pi / 2
-  P = patched(lf, complex_exp=trig.cexp)
-  Q = patched(la, cexp=trig.cexp)
+  # every trigonometric name these modules (may) use goes through the same contract stub
+  from audiolazy.lazy_misc import elementwise
+  cosf = elementwise("x", 0)(trig.cos); sinf = elementwise("x", 0)(trig.sin)
+  if ctx.mode == "sym":
+    P = patched(lf, complex_exp=trig.cexp, cos=cosf, sin=sinf)
+    Q = patched(la, cexp=trig.cexp, cos=cosf, sin=sinf)
+  else:
+    P = patched(lf, complex_exp=trig.cexp)
+    Q = patched(la, cexp=trig.cexp)
   return trig, w, P, Q
 
 
@@ -59,9 +66,10 @@ def _polyval(coefs, zi):
   return acc
 
 
-def _mk(ctx, tag, nb, na):
+def _mk(ctx, tag, nb, na, lead=0):
+  """lead > 0: the numerator starts at z**+lead (look-ahead / zero-phase filters have a response too)"""
   from audiolazy import ZFilter
-  b = {k: ctx.real("%sb%d" % (tag, k)) for k in range(nb)}
+  b = {k - lead: ctx.real("%sb%d" % (tag, k)) for k in range(nb)}
   a = {k: ctx.real("%sa%d" % (tag, k), nonzero=(k == 0)) for k in range(na)}
   return ZFilter(dict(b), dict(a)), b, a
 
@@ -73,7 +81,7 @@ def _isnan(v):
 def h_response(ctx, cfg):
   trig, w, P, Q = _setup(ctx, cfg.get("at", "any"))
   with P, Q:
-    filt, b, a = _mk(ctx, "f", cfg["nb"], cfg["na"])
+    filt, b, a = _mk(ctx, "f", cfg["nb"], cfg["na"], cfg.get("lead", 0))
     H = filt.freq_response(w)
     zi = _zinv(ctx, trig, w)
     N, D = _polyval(b, zi), _polyval(a, zi)
@@ -242,6 +250,8 @@ def tasks(tier, seed):
     if nb + na <= 5:
       for at in ("zero", "pi", "half"):
         T.append(("h_response", {"nb": nb, "na": na, "at": at}))
+  for nb, na, lead in ((1, 1, 1), (3, 1, 1), (2, 2, 1), (3, 2, 2)):
+    T.append(("h_response", {"nb": nb, "na": na, "lead": lead}))
   for kind in ("list", "tuple", "deque", "stream", "gen"):
     T.append(("h_containers", {"kind": kind}))
   for f, g in (((1, 1), (1, 1)), ((2, 1), (1, 2)), ((2, 2), (1, 1)), ((1, 2), (1, 2)), ((2, 1), (2, 1))) + \
